@@ -465,6 +465,12 @@ def rule_root_access(ctx):
                 else:
                     keys.add(o)
         okk = ok and bool(somes) and bool(keys) and all(origin_contains(k, lambda t: t == ("call", firsts[0].b, firsts[0].callee)) for k in keys)
+        if ok and not somes:
+            # `self.heap.first().map(|item| ..)`: the result is Option::map / and_then applied to the root element
+            rets = [r for r in K.ret_assigns(b) if r.is_term and r.callee in ("std::option::Option::map", "std::option::Option::and_then")]
+            okk = bool(rets) and len(rets) == len(K.ret_assigns(b)) and all(
+                b.origins(r.args()[0], r) == frozenset([("call", firsts[0].b, firsts[0].callee)]) for r in rets)
+            somes = rets
         others = [s for s in b.calls(r"^core::slice::<impl \[T\]>::(last|last_mut|get|get_mut|get_unchecked)$|^std::vec::Vec::(last|pop)$")]
         if nm != "pull":
             okk = okk and not others
